@@ -551,6 +551,22 @@ func (h *Server) Panicked() []string {
 	for _, p := range h.S.Panics {
 		out = append(out, "UNRECOVERED "+firstLine(p))
 	}
+	// what the server's own recover() calls caught, whatever it logged about it
+	for _, p := range h.S.Recovered {
+		if strings.Contains(p, "handler panic requested by the scenario") {
+			if len(out) == 0 || !strings.Contains(strings.Join(out, " "), "panic in the handler") {
+				out = append(out, "panic in the handler: "+firstLine(p))
+			}
+			continue
+		}
+		dup := false
+		for _, o := range out {
+			dup = dup || strings.Contains(o, "panicked")
+		}
+		if !dup {
+			out = append(out, "RECOVERED "+firstLine(p))
+		}
+	}
 	return out
 }
 
